@@ -170,6 +170,7 @@ theorem scalar_jtok (c : EncCfg) (hc : JsonCfg c) (fuel : Nat) (pfx : Bytes) (v 
                       intro x hx; simp only [List.mem_map] at hx; obtain ⟨y, hy, rfl⟩ := hx
                       simp only [timeText, hnc, ↓reduceIte]; exact jtok_rawQuoted _ (jinq_of_inqB (all_of_all hok y hy))))
   | fallback t => cases fuel <;> (simp only [encVal]; exact hq t)
+  | textm t fb => cases fuel <;> (simp only [encVal]; split <;> exact hq _)
   | group items => simp [isGroupVal] at hng
 
 def ValStmtJ (c : EncCfg) (fuel : Nat) : Prop :=
